@@ -86,7 +86,8 @@ type c08Case struct {
 	Binder   string     `json:"binder,omitempty"` // vb: "" / query = QueryParamsBinder, form = FormFieldBinder (POST body), multipart = FormFieldBinder (multipart body), path = PathParamsBinder
 	FailFast bool       `json:"failfast,omitempty"`
 	Ops      []c08Op    `json:"ops,omitempty"`
-	Source   string     `json:"source,omitempty"` // struct: query | bind-get | form | multipart | header | param | param+query
+	Source   string     `json:"source,omitempty"`   // struct: query | bind-get | form | multipart | json | xml | header | param | param+query
+	LenMode  string     `json:"len_mode,omitempty"` // struct, body sources: "" Content-Length | unknown (-1) | chunked (-1 + TransferEncoding) | server (real connection, chunked upload)
 	Fields   []c08Field `json:"fields,omitempty"`
 	Fields2  []c08Field `json:"fields2,omitempty"` // param+query: the query string (Fields = path params), bound by c.Bind
 	Prepop   bool       `json:"prepop,omitempty"`  // struct: destination pre-populated with non-zero sentinels
@@ -1462,10 +1463,11 @@ func c08RunStruct(c *c08Case) (res Result) {
 	for k, v := range data {
 		uv[k] = v
 	}
+	var body []byte // body sources: the bytes sent, whatever the way their length is (not) declared
+	bodyCT := ""
 	switch c.Source {
 	case "form":
-		req = httptest.NewRequest(http.MethodPost, "/", strings.NewReader(uv.Encode()))
-		req.Header.Set(echo.HeaderContentType, echo.MIMEApplicationForm)
+		body, bodyCT = []byte(uv.Encode()), echo.MIMEApplicationForm
 	case "multipart":
 		var buf bytes.Buffer
 		mw := multipart.NewWriter(&buf)
@@ -1475,8 +1477,19 @@ func c08RunStruct(c *c08Case) (res Result) {
 			}
 		}
 		mw.Close()
-		req = httptest.NewRequest(http.MethodPost, "/", &buf)
-		req.Header.Set(echo.HeaderContentType, mw.FormDataContentType())
+		body, bodyCT = buf.Bytes(), mw.FormDataContentType()
+	case "json":
+		body, bodyCT = c08JSONBody(present, data), echo.MIMEApplicationJSON
+	case "xml":
+		body, bodyCT = c08XMLBody(present, data), echo.MIMEApplicationXML
+	}
+	switch c.Source {
+	case "form", "multipart", "json", "xml":
+		req = verifBodyRequest(http.MethodPost, "/", body, c.LenMode)
+		req.Header.Set(echo.HeaderContentType, bodyCT)
+		if c.LenMode != "" {
+			tags = append(tags, "len:"+c.LenMode)
+		}
 	case "header":
 		req = httptest.NewRequest(http.MethodGet, "/", nil)
 		for k, v := range data {
@@ -1519,7 +1532,28 @@ func c08RunStruct(c *c08Case) (res Result) {
 	}
 	var err error
 	panicked := ""
+	served := false
+	if body != nil && c.LenMode == "server" {
+		// the same bytes over a real connection, uploaded without a declared length
+		served = verifServe(http.MethodPost, "/", body, http.Header{echo.HeaderContentType: {bodyCT}}, func(sc echo.Context) {
+			defer func() {
+				if p := recover(); p != nil {
+					panicked = fmt.Sprint(p)
+				}
+			}()
+			if cl := sc.Request().ContentLength; cl != -1 && len(body) > 0 {
+				tags = append(tags, fmt.Sprintf("server-content-length:%d", cl))
+			}
+			err = sc.Bind(dst.Interface())
+		})
+		if !served {
+			tags = append(tags, "server-unavailable")
+		}
+	}
 	func() {
+		if served {
+			return
+		}
 		defer func() {
 			if p := recover(); p != nil {
 				panicked = fmt.Sprint(p)
@@ -1538,6 +1572,46 @@ func c08RunStruct(c *c08Case) (res Result) {
 		}
 	}()
 	tags = append(tags, "struct:"+c.Source)
+	if c.Source == "json" || c.Source == "xml" {
+		// decoded bodies are not modelled: the verdict is what the standard library makes of the
+		// SAME bytes on an identically prepared destination
+		if panicked != "" {
+			return Result{Obs: "panic", Oracle: "struct binding panicked: " + panicked, Tags: tags, Nontrivial: true}
+		}
+		ref := reflect.New(catT)
+		if c.Prepop {
+			c08Prepopulate(ref.Elem())
+		}
+		refErr := c08DecodeReference(c.Source, body, ref)
+		if (err != nil) != (refErr != nil) {
+			fail("%s body %q: decoding the same bytes gives error=%v, Bind returned %v", c.Source, body, refErr, err)
+		}
+		if err != nil {
+			var he *echo.HTTPError
+			if !errors.As(err, &he) || he.Code != http.StatusBadRequest {
+				fail("binding error is not a 400 HTTPError: %v", err)
+			}
+			tags = append(tags, "struct-400")
+		} else {
+			tags = append(tags, "struct-ok")
+		}
+		nontrivial := false
+		for _, info := range infos {
+			_, v1, s1 := c08FVal(info, dst.Elem().Field(info.Idx))
+			_, v2, s2 := c08FVal(info, ref.Elem().Field(info.Idx))
+			if s1 != s2 || !c08Same(v1, false, v2, false) {
+				fail("field %s: decoding the same %s bytes (%q) gives %v (%s), after Bind the field holds %v (%s)", info.Name, c.Source, body, v2, s2, v1, s1)
+			}
+		}
+		for _, info := range present {
+			for _, v := range data[info.Name] {
+				if c08Interesting(v) {
+					nontrivial = true
+				}
+			}
+		}
+		return Result{Ops: "", Obs: "", Oracle: oracle, Tags: append(tags, "oracle-only"), Nontrivial: nontrivial}
+	}
 	tbl := &c08Table{}
 	tbl.add(32, "0.0")
 	tbl.add(64, "0.0")
